@@ -375,6 +375,24 @@ def run(tier, seed, report):
                     seen.add("c20:create")
                     report.findings.append(Finding("C20", "c20:create", "store created by the client (-chs depth=%d width=%d %s) is not opened by the API with the same properties: %s" % (d, w, a, res),
                                                    {"property": "C20", "kind": "client-create", "depth": d, "width": w, "alg": a}))
+                # -chs on the existing store with other properties: the API refuses (ValueError), so must the client
+                other_alg = "SHA-384" if a != "SHA-384" else "SHA-256"
+                for (d2, w2, a2, ns2) in [(d + 1, w, a, NS), (d, w + 1, a, NS), (d, w, other_alg, NS), (d, w, a, NS + "x")]:
+                    stats["cases"] += 1
+                    before = impl.snapshot_lines(root, contents)
+                    try:
+                        FileHashStore(properties={"store_path": root, "store_depth": d2, "store_width": w2,
+                                                  "store_algorithm": a2, "store_metadata_namespace": ns2})
+                        api = "ok"
+                    except Exception as e:  # noqa
+                        api = "err " + impl.exc_name(e)
+                    res2, _, _ = run_client([root, "-chs", "-dp=%d" % d2, "-wp=%d" % w2, "-ap=%s" % a2, "-nsp=%s" % ns2])
+                    after = impl.snapshot_lines(root, contents)
+                    if (api.startswith("err") != res2.startswith("err") or before != after) and "c20:reopen" not in seen:
+                        seen.add("c20:reopen")
+                        report.findings.append(Finding("C20", "c20:reopen", "-chs on an existing store (created depth=%d width=%d %s) with depth=%d width=%d %s ns%s: API %s, client %s%s" % (
+                            d, w, a, d2, w2, a2, "" if ns2 == NS else " changed", api, res2, "" if before == after else "; files changed"),
+                            {"property": "C20", "kind": "client-reopen", "created": [d, w, a], "given": [d2, w2, a2, ns2], "api": api, "client": res2}))
         finally:
             shutil.rmtree(base, ignore_errors=True)
     finally:
